@@ -34,6 +34,18 @@ Lemma fixed_get_pages_alloc :
   get_pages w_count_huge = [(1, (3, 0))]%N.
 Proof. vm_compute. repeat split; reflexivity. Qed.
 
+(* a Pages kid that understates its Count: the promised upper bound (0) is below what is yielded (2) *)
+Definition w_count_zero : doc :=
+  mkdoc [((1, 0)%N, ODict [(K_Type, OName N_Catalog); (K_Pages, ORef 2 0)]);
+         ((2, 0)%N, ODict [(K_Type, OName K_Pages); (K_Kids, OArr [ORef 5 0])]);
+         ((3, 0)%N, ODict [(K_Type, OName K_Page)]);
+         ((4, 0)%N, ODict [(K_Type, OName K_Page)]);
+         ((5, 0)%N, ODict [(K_Type, OName K_Pages); (K_Count, OInt 0); (K_Kids, OArr [ORef 3 0; ORef 4 0])])].
+Lemma v0_hint_upper_wrong : hint_upper_v0 w_count_zero = Ok 0%N /\ length (page_iter w_count_zero) = 2.
+Proof. vm_compute. split; reflexivity. Qed.
+Lemma fixed_hint_upper : snd (fst (fst (hint_probe w_count_zero))) = 5%N.
+Proof. vm_compute. reflexivity. Qed.
+
 (* ---- outlines ---- *)
 Definition outline_objs (item : dict) : objmap :=
   [((1, 0)%N, ODict [(K_Type, OName N_Catalog); (Q_Outlines, ORef 2 0)]);
